@@ -1,2 +1,15 @@
 import Solvor.Path.Theorems
 /-! Axiom audit for the property theorems of C11 (run by every check). -/
+#print axioms Solvor.Path.potential_lower_bound
+#print axioms Solvor.Path.lowerCert_sound
+#print axioms Solvor.Path.path_upper_bound
+#print axioms Solvor.Path.dist_exact_cert
+#print axioms Solvor.Path.closed_set_unreachable
+#print axioms Solvor.Path.neg_cycle_cert
+#print axioms Solvor.Path.bellman_ford_correct
+#print axioms Solvor.Path.dfs_path_valid
+#print axioms Solvor.Path.bfs_correct
+#print axioms Solvor.Path.search_explore_reachable
+#print axioms Solvor.Path.zsqrt2_order_embedding
+#print axioms Solvor.Path.grid_dist_exact_cert
+#print axioms Solvor.Path.grid_withinTol_iff
